@@ -15,7 +15,8 @@ func init() {
 		Patterns: []string{"./analysis/facts/nilness", "./analysis/dfa/...", "./staticcheck/sa4023"},
 		NeedSSA:  true,
 		Explanation: "Soundness of the nilness facts with respect to executions is a semantic relation and is NOT decided. Decided is the 'unknown ⇒ top' discipline that any sound analysis needs: the absorbing element of the merge table is computed from the source (today MaybeNil), and every funnel where the analysis does not know — the pointer-like default, normalisation of missing components, a function without a fact, an unknown or under-described callee, parameters and free variables — yields that element in both components (R15.1); " +
-			"every bail-out of impl returns the signature default, results are joined over all return sites with the lattice's Merge (never overwritten), non-pointer results are NeverNil by type, and a fact is exported only after the solver ran and after normalisation (R15.2); SA4023 reports only on facts that are definite in the component it tests (R15.3). Instruction and builtin coverage of the transfer function is decided under C03 (R3.1/R3.2).",
+			"every bail-out of impl returns the signature default, results are joined over all return sites with the lattice's Merge (never overwritten), non-pointer results are NeverNil by type, and a fact is exported only after the solver ran and after normalisation (R15.2); SA4023 reports only on facts that are definite in the component it tests (R15.3). Instruction and builtin coverage of the transfer function is decided under C03 (R3.1/R3.2)." +
+			" Also decided, after four genuine defects were found there: the dense solver's re-enqueue pairing (shared with C13); the φ-nodes of a block are evaluated in parallel (all incoming values read before any φ is updated); state.get returns a recorded slot only after testing that something was recorded, so the per-kind defaults always apply; a conversion copies the operand's nilness only under IsPointerLike(operand).",
 		RuleText:    "constant struct literals evaluated from SSA stores; guard-edge and dominance queries; the merge table is evaluated as in C13",
 		Assumptions: []string{"each transfer rule states a fact that holds on normal completion of the instruction (not decided here)"},
 		Run:         runC15,
